@@ -12,7 +12,7 @@
 From PCD Require Import Base.PyBase Base.Cfg Model.Args Model.Data Model.Consts Model.LineTable Model.Blocks
   Model.CodeData Spec.Lnotab Spec.Dis Model.ViewSer Proofs.C02_Statements Proofs.C01_Statements
   Proofs.C03_Statements Proofs.C03b_Statements Proofs.C03c_Statements Proofs.TablesReplay Proofs.TablesSound
-  Proofs.RelaxProofs Proofs.EncodeCorrect Proofs.C06_Statements Proofs.C03d_Statements Proofs.Redecode.
+  Proofs.RelaxProofs Proofs.EncodeCorrect Proofs.C06_Statements Proofs.C03d_Statements Proofs.Redecode Proofs.Total_Statements Proofs.EncodeTotal1 Proofs.EncodeTotal.
 
 (* For every configuration and every well-formed datum without private override fields (constants paired
    with their encodings): the emitted code object is read back by CPython's disassembler and line reader
@@ -107,3 +107,15 @@ Theorem C03_redecode_gives_the_stream : forall c (d : code_data_ pconst) code,
       view_agrees key_eqb (fst_view (data_view (cd_blocks d))) (data_view (cd_blocks d2)) = true.
 Proof. exact C03_redecode. Qed.
 Print Assumptions C03_redecode_gives_the_stream.
+
+(* to_code RETURNS a code object for well-formed data exactly when enc_ok holds: stack size not
+   negative, every free-variable operand declared in freevars, no positional-only parameter before 3.8,
+   and the configuration's flag table names the flags the datum needs (always true on the four generated
+   configurations: EncodeTotal.enc_ok_generated_cfgs).  No premise on names, lines, first line, table
+   sizes or jump distances: the operand tables never collide without overrides, the varnames-prefix
+   assertion cannot fail, the line codec accepts every value, the relaxation terminates. *)
+Theorem C03_to_code_returns_iff_enc_ok : forall c (d : code_data_ pconst),
+  data_wf c d = true ->
+  ((exists code, encode_code c d = OK code) <-> enc_ok c d = true).
+Proof. exact encode_total_iff. Qed.
+Print Assumptions C03_to_code_returns_iff_enc_ok.
